@@ -43,7 +43,7 @@ SCHEMES = te.SCHEMES
 def plan(tier):
     req = (["scheme:%s|%s" % (s, m) for s in SCHEMES for m in ("real", "imag")]
            + ["A:order", "A:exact", "ps:complete-bonds", "ps:incomplete-bonds", "D:splitting", "E:conservation", "E:truncated",
-              "F:bond-limit", "G:per-bond-limits", "linear-vs-chain", "aux-space", "history", "normalised", "state:product", "sector-checked",
+              "F:bond-limit", "G:per-bond-limits", "H:homogeneity", "H:tdvp_ps2|product-state", "linear-vs-chain", "aux-space", "history", "normalised", "state:product", "sector-checked",
               "multi-set-node", "dummy-node", "branching", "qn-none", "qn-one", "qn-two", "state:complex-amplitudes"]
            + ["kind:" + k for k in trees.ALL_KINDS])
     base = {"case_time_limit": 600, "required_classes": req}
@@ -418,6 +418,44 @@ def oracle_product(ctx, tm, qntot):
         oracle_A(ctx, tm, "prop_and_compress_tdrk4", s, psi, qntot, imag, False, state_cls="product")
 
 
+def oracle_homogeneity(ctx, tm, qntot, full):
+    """Without normalisation every scheme is homogeneous of degree one in the input amplitudes: evolving mu*psi gives mu
+    times the evolved psi (the effective Hamiltonians are built from environments of the state itself, so a stale or
+    mis-scaled environment shows up here even where the splitting is exact).  The factor is put into the TENSORS
+    (TTNS.scale), bond-dimension-one product states included; both runs see the same global random seed."""
+    rng = ctx.rng
+    ctx.cls("H:homogeneity")
+    product = bool(rng.random() < 0.6)
+    s0 = te.product_state(ctx, tm, qntot) if product else full
+    start = "product-state" if product else "full-rank-state"
+    cands = ["tdvp_ps", "prop_and_compress_tdrk4"] + (["tdvp_ps2"] * 3 if allow_ps2(ctx, tm) else [])
+    sc = cands[int(rng.integers(0, len(cands)))]
+    if sc == "tdvp_ps2":
+        # the two-site update completes its bond bases with null-space vectors that LAPACK / the random padding choose and
+        # of which only some are kept: which ones is not a continuous function of the two-site tensor (a sign change of the
+        # input already selects others, measured deviation 2e-5).  Positive powers of two rescale every intermediate exactly
+        mu = [4.0, 0.25, 2.0, 0.5][int(rng.integers(0, 4))]
+    else:
+        mu = [4.0, 0.25, -3.0, complex(2 * np.exp(0.7j))][int(rng.integers(0, 4))]
+    imag = bool(rng.random() < 0.4)
+    x = float(rng.uniform(0.1, 0.3))             # ||H|| h as elsewhere
+    tau = -1j * x if imag else x
+    mode = mode_of(imag)
+    ctx.cls(f"H:{sc}|{start}")
+    state = rng.bit_generator.state
+    out1, _ = te.run_step(ctx, tm, sc, s0, tau, what=f"evolve|{sc}|{mode}|psi")
+    after = rng.bit_generator.state
+    rng.bit_generator.state = state            # the scaled run draws the same seed for the library's global RNG
+    outm, _ = te.run_step(ctx, tm, sc, s0.scale(mu), tau, what=f"evolve|{sc}|{mode}|mu*psi")
+    rng.bit_generator.state = after
+    a = te.dense_of(out1, tm.order)
+    b = te.dense_of(outm, tm.order)
+    ctx.count("oracle")
+    ctx.count("homogeneity_checks")
+    ctx.close(b, mu * a, 1e-6, f"H|{sc}|{mode}|evolved-state-not-proportional-to-the-input-amplitude|{start}",
+              scale=max(float(np.linalg.norm(mu * a)), 1e-300), mu=mu, x=x, bonds=list(s0.bond_dims))
+
+
 def oracle_ps_incomplete(ctx):
     """The one-site splitting on sector-limited bond bases (no side of some edge complete): a second-order scheme.
     Such states need quantum numbers and a sector in which different charge blocks saturate on different sides, so
@@ -686,3 +724,5 @@ def run_case(ctx):
     else:
         oracle_product(ctx, tm, q)
         oracle_E(ctx, tm, full, q)
+    if extra in (2, 5, 6) and not ctx.violations:
+        oracle_homogeneity(ctx, tm, q, full)
